@@ -42,11 +42,17 @@ func (fx *Facts) retVal(ap *APath, i int) ssa.Value {
 				return v
 			}
 			var cell ssa.Value
+			var viaPtr *ssa.Alloc // the variable of the caller a pointer parameter stands for (`*err`)
 			switch c := x.X.(type) {
 			case *ssa.Alloc:
 				cell = c
 			case *ssa.FreeVar:
 				cell = c // a captured variable: the last value this closure stored into it on the path
+			case *ssa.UnOp:
+				if viaPtr = fx.ownerCell(c); viaPtr == nil {
+					return v
+				}
+				cell = c
 			default:
 				return v
 			}
@@ -55,10 +61,10 @@ func (fx *Facts) retVal(ap *APath, i int) ssa.Value {
 				if in == ssa.Instruction(x) {
 					break
 				}
-				if st, ok := in.(*ssa.Store); ok && st.Addr == cell {
+				if st, ok := in.(*ssa.Store); ok && (st.Addr == cell || viaPtr != nil && fx.ownerCell(st.Addr) == viaPtr) {
 					last = st.Val
 				}
-				if _, isFV := cell.(*ssa.FreeVar); isFV {
+				if _, isFV := cell.(*ssa.FreeVar); isFV || viaPtr != nil {
 					// a call made after the store may re-assign a captured variable (another closure sharing it)
 					if _, isCall := in.(*ssa.Call); isCall && last != nil && !isErrorType(x.Type()) {
 						last = nil
